@@ -46,6 +46,13 @@ impl CountMinRow {
     }
 }
 
+#[cfg(feature = "verif-hooks")]
+impl CountMinRow {
+    pub(crate) fn verif_bytes(&self) -> Vec<u8> {
+        self.0.clone()
+    }
+}
+
 impl Index<usize> for CountMinRow {
     type Output = u8;
 
